@@ -30,7 +30,7 @@ F_INC = "C15-incomparable-uppers-united"
 F_CON = "C15-constraint-not-checked-against-uppers"
 FINDING_TEXT = {
     F_ANY: "an Any upper bound replaces the upper bounds seen before it (solve: `top.is_assignable(Any)` adopts Any as top), so the value chosen can violate them and the verdict depends on the order of the bounds; solver API level (resolve_bounds_map on Bound objects)",
-    F_INC: "two incomparable upper bounds are united instead of intersected (TODO in typevar.solve), so the value chosen need not be accepted by each upper bound; solver API level — through a call the second pass of check_call_with_bound_args still reports the argument",
+    F_INC: "two incomparable upper bounds are united instead of intersected (TODO in typevar.solve), so the value chosen need not be accepted by each upper bound and the verdict can depend on the order of the bounds; solver API level — through a call the second pass of check_call_with_bound_args still reports the argument",
     F_CON: "when explicit upper bounds and constraints are both present the constraint chosen is never tested against the upper bounds; solver API level",
 }
 
@@ -193,8 +193,12 @@ def attribute(kind, g):
         if g["uppers_and_constraints"]:
             return F_CON
     if kind == "order":
+        # perm_guard = uppers_ok: an Any upper bound, or incomparable upper bounds (a united top
+        # can later be replaced by a narrower bound that only one of its members accepts)
         if g["uppers_any"]:
             return F_ANY
+        if g["uppers_incomparable"]:
+            return F_INC
     return None
 
 
@@ -235,12 +239,16 @@ HEADER = (
 
 def call_cases(rng, tier):
     out = []
-    n = 420 if tier == "quick" else 6000
+    n = 700 if tier == "quick" else 6000
     names = list(calls.SIGS)
     for _ in range(n):
         s = rng.choice(names)
         kinds = calls.SIGS[s][1]
-        out.append({"kind": "call", "sig": s, "args": [rng.choice(calls.POOLS[k]) for k in kinds]})
+        if s in calls.FRIENDLY and rng.random() < 0.7:
+            args = [rng.choice(calls.FRIENDLY[s]) for _ in kinds]
+        else:
+            args = [rng.choice(calls.POOLS[k]) for k in kinds]
+        out.append({"kind": "call", "sig": s, "args": args})
     if tier == "thorough":
         for s, (_, kinds, _) in calls.SIGS.items():
             if len(kinds) == 2:
@@ -279,11 +287,11 @@ def run(tier: str, replay: str | None = None):
                     e2e_cases.append(c)
                 else:
                     bound_cases.append(canon(c["bounds"]))
-        n_b = 520 if tier == "quick" else 9000
+        n_b = 1500 if tier == "quick" else 12000
         for _ in range(n_b):
             bound_cases.append(canon(gen_bounds(rng)))
         allf = FAMILIES[-1]
-        for _ in range(500 if tier == "quick" else 6000):
+        for _ in range(1200 if tier == "quick" else 8000):
             fam = rng.choice(FAMILIES)
             acc_cases.append((gen_sval(rng, fam), gen_sval(rng, rng.choice([fam, allf]))))
         e2e_cases += call_cases(rng, tier)
